@@ -356,6 +356,7 @@ int fwrite_all(const void *buf, size_t size, FILE *fp);
 
 int create_directory(const char *dirname);
 int remove_directory(const char *dirname);
+bool can_remove_directory(const char *path);
 int chown_directory(const char *dirname);
 char *read_exename(void);
 
